@@ -3,6 +3,7 @@ pub mod c15;
 pub mod c17;
 pub mod c18;
 pub mod c19;
+pub mod c20;
 
 use crate::driver::PropDef;
 
@@ -13,6 +14,7 @@ pub fn lookup(id: &str) -> Option<&'static PropDef> {
         "C17" => Some(&c17::DEF),
         "C18" => Some(&c18::DEF),
         "C19" => Some(&c19::DEF),
+        "C20" => Some(&c20::DEF),
         _ => None,
     }
 }
